@@ -80,6 +80,7 @@ type model struct {
 	nameCtr      int
 	noMoreBg     bool
 	queue        []queued
+	shadowed     bool // the PATH-shadow sequence has been used in this script
 	fromQueue    bool
 	tpls         []string
 }
@@ -1101,6 +1102,25 @@ retry:
 // prepare queues a multi-line sequence whose lines all must succeed.
 func (m *model) prepare() {
 	files := m.files()
+	if !m.cli && !m.shadowed && m.r.Intn(3) == 0 {
+		// Directories named like programs, in a PATH element that comes first: looking a program
+		// up must pass over them (exec finds the real one; [exec:prog] stays false when only a
+		// directory has that name).
+		m.shadowed = true
+		d := fmt.Sprintf("shadow%d", m.r.Intn(1000))
+		prog := fmt.Sprintf("zzprog%d", m.r.Intn(1000))
+		msg := fmt.Sprintf("shadow-ok-%d", m.r.Intn(1000))
+		m.queue = append(m.queue,
+			queued{"mkdir $WORK/" + d + "/vhelper $WORK/" + d + "/" + prog, "mkdir", func() { m.mkdirAll(d + "/vhelper"); m.mkdirAll(d + "/" + prog) }},
+			queued{"env PATH=$WORK/" + d + "${:}$PATH", "env", nil},
+			queued{"exec vhelper out " + msg, "exec", func() { m.stdout, m.stderr, m.stdin, m.stdoutKnown = msg+"\n", "", "", true }},
+			queued{"stdout " + msg, "match", nil},
+			queued{"[exec:" + prog + "] exists no-such-file-behind-a-false-condition", "cond-false", nil},
+			queued{"[!exec:" + prog + "] exec vhelper out " + msg + "2", "exec", func() { m.stdout, m.stderr, m.stdin, m.stdoutKnown = msg+"2\n", "", "", true }},
+			queued{"stdout " + msg + "2", "match", nil},
+		)
+		return
+	}
 	switch m.r.Intn(3) {
 	case 0: // stdin is consumed by exactly one exec
 		if len(files) == 0 {
